@@ -5,6 +5,7 @@ import QR.Proofs.History
 import QR.Proofs.SourceTieC11
 import QR.Proofs.Pinned
 import QR.Proofs.SourceTieB2
+import QR.Proofs.CapstoneE3
 /-
 C11 - a compile depends only on current data and settings, never on history.  (Invariant proof under construction.)
 -/
@@ -365,6 +366,66 @@ theorem C11_source_getVersion_src {F : Type} (fac : Option F) (g : Global) (s : 
   first | exact QR.SourceTieD2.getVersion_src | (apply QR.SourceTieD2.getVersion_src <;> assumption)
 
 end SourceTieD2
+
+/-! ### Capstones: (bridge) + (property) composed - the TRANSLATED `make` / `clear` / `add_data` themselves are history free
+against the cache-free reference compile. -/
+section Capstone
+open QR.Gen.Code QR.SourceTieD2 QR.CapstoneE3
+
+/-- **capstone, `main.py:QRCode.make(fit)`** as assembled from its translated pieces (`CapstoneE3.makeSrc` = verbatim the right-hand
+    side of `C11_source_makeS_src`: `self.data_cache = None`, the `version` property read, the re-fit, the mask branch).  Partly
+    translated chain: the callees `best_fit`, `best_mask_pattern`, `makeImpl` are the Model's `bestFitS`, `bestMaskS`, `makeImplS`
+    (each with its own bridge, e.g. `C11_source_makeImplS_src`, `C11_source_blankG_src`).  Whatever the two caches hold
+    (blank-cache invariant `Global.Inv`, `version ≤ 40`), it produces exactly what the cache-free reference compile
+    (`Model.compile`, the property's reference: a fresh object with the same settings and data) produces, or fails with the same
+    error.  From `C11_source_makeS_src`, `C11_make`. -/
+theorem C11_source_capstone_make (fit : Bool) (g : Global) (hg : Global.Inv g) (s : QRState) (hv : s.version ≤ 40) :
+    match makeSrc fit g s with
+    | ((g', s'), .ok ()) => Global.Inv g' ∧
+        ∃ m, compile { version := s.version, level := s.level, mask := s.mask, fit := fit } s.dataList =
+          .ok (s'.version, m, s'.modules)
+    | ((g', _), .error e) => Global.Inv g' ∧
+        compile { version := s.version, level := s.level, mask := s.mask, fit := fit } s.dataList = .error e := by
+  rw [← makeS_eq_makeSrc]; exact C11_make fit g hg s hv
+
+/-- **capstone (history-freedom ingredient), `main.py:QRCode.clear`** (translated `ob_clear`) followed by `make(fit)` (`makeSrc`, as
+    above): the object after `clear()` is the object of a state on which a compile yields exactly what the reference compile of
+    the SAME settings with NO data yields - nothing of the earlier data, matrix or cache survives.
+    From `C11_source_cleared_src`, `C11_source_makeS_src`, `C11_make`. -/
+theorem C11_source_capstone_clear {F : Type} (fac : Option F) (g : Global) (hg : Global.Inv g) (s : QRState)
+    (hv : s.version ≤ 40) (fit : Bool) :
+    ∃ s', ob_clear (toOb fac s) = toOb fac s' ∧
+      match makeSrc fit g s' with
+      | ((g', s''), .ok ()) => Global.Inv g' ∧
+          ∃ m, compile { version := s.version, level := s.level, mask := s.mask, fit := fit } [] =
+            .ok (s''.version, m, s''.modules)
+      | ((g', _), .error e) => Global.Inv g' ∧
+          compile { version := s.version, level := s.level, mask := s.mask, fit := fit } [] = .error e := by
+  refine ⟨s.cleared, C11_source_cleared_src fac s, ?_⟩
+  have h := C11_source_capstone_make fit g hg s.cleared (by simpa [QRState.cleared] using hv)
+  simpa [QRState.cleared] using h
+
+/-- **capstone (history-freedom ingredient), `main.py:QRCode.add_data(bytes, optimize)`** (translated `ob_add_data`; the callees
+    `util.optimal_data_chunks` / `util.QRData` are the explicit parameters `Model.optimalDataChunks` / the Model segment
+    constructor, tied to the source in C10) followed by `make(fit)` (`makeSrc`): the object after `add_data` is the object of a
+    state `s'` with an EMPTY data cache, on which a compile yields exactly what the reference compile of the same settings and
+    the new data list yields - a previously cached stream cannot leak into the result.
+    From `C11_source_addData_src`, `C11_source_makeS_src`, `C11_make`. -/
+theorem C11_source_capstone_add_data {F : Type} (fac : Option F) (g : Global) (hg : Global.Inv g) (s : QRState)
+    (hv : s.version ≤ 40) (d : Bytes) (n : Nat) (fit : Bool) :
+    ∃ s', ob_add_data (fun d k => optimalDataChunks d k.toNat) (fun d => ({ mode := optimalMode d, data := d } : Seg))
+        (toOb fac s) (.inr d) (n : Int) = toOb fac s' ∧ s'.dataCache = none ∧
+      match makeSrc fit g s' with
+      | ((g', s''), .ok ()) => Global.Inv g' ∧
+          ∃ m, compile { version := s.version, level := s.level, mask := s.mask, fit := fit } s'.dataList =
+            .ok (s''.version, m, s''.modules)
+      | ((g', _), .error e) => Global.Inv g' ∧
+          compile { version := s.version, level := s.level, mask := s.mask, fit := fit } s'.dataList = .error e := by
+  have ha := C11_source_addData_src fac g s d n
+  simp only [Agrees, step] at ha
+  refine ⟨_, Except.ok.inj ha.1, rfl, ?_⟩
+  exact C11_source_capstone_make fit g hg { s with dataList := s.dataList ++ addData d n, dataCache := none } hv
+end Capstone
 
 /-- the Python functions this property's model mirrors have, in /repo's current working tree, exactly the normalised
     ASTs the model was written and validated against (fingerprints regenerated by T1 on every run) -/
